@@ -221,10 +221,22 @@ func TestC19(t *testing.T) {
 			id := must(e.Client.Subscription.Query().Where(subscription.Name(sub)).OnlyID(e.Ctx))
 			ep := &endpoint{sub: sub, msgs: map[string]*pushMsg{}, statuses: map[int]int{}}
 			// script kinds
-			kind := []string{"all-fast-success", "all-slow-success", "alternating", "failure-burst", "every-status", "ramp"}[i%6]
+			kind := []string{"all-fast-success", "all-slow-success", "alternating", "failure-burst", "every-status", "ramp", "grow-then-fail"}[i%7]
 			nm := 4 + r.Intn(12)
 			if kind == "ramp" {
 				nm = 60 + r.Intn(60)
+			}
+			grow, failing, extra := 0, 0, 0
+			_ = extra
+			if kind == "grow-then-fail" {
+				// first grow the window with fast successes (the window is 1 + successes),
+				// then let 1-3 pushes fail (each failure shrinks the window by 10, floor 1)
+				// walk the combinations deterministically; the first ones make the window
+				// exactly 10 x (number of simultaneous failures) when the failures arrive
+				combos := [][3]int{{9, 1, 0}, {19, 2, 0}, {29, 3, 0}, {9, 1, 2}, {10, 1, 0}, {8, 1, 0}, {19, 1, 0}, {9, 2, 0}, {4, 1, 1}, {29, 2, 1}, {19, 3, 0}, {11, 1, 0}}
+				c := combos[(i/7)%len(combos)]
+				grow, failing, extra = c[0], c[1], c[2]
+				nm = grow + failing + extra
 			}
 			req := &pubsubpb.PublishRequest{Topic: topic}
 			var ms []*pushMsg
@@ -246,6 +258,14 @@ func TestC19(t *testing.T) {
 						m.script = append(m.script, []int{0, 400, 404, 429, 500, 503}[r.Intn(6)])
 						m.slow = append(m.slow, r.Intn(4) == 0)
 					}
+				case "grow-then-fail":
+					if k >= grow && k < grow+failing {
+						f := 1 + r.Intn(2)
+						for j := 0; j < f; j++ {
+							m.script = append(m.script, []int{0, 500, 503}[r.Intn(3)])
+							m.slow = append(m.slow, false)
+						}
+					}
 				case "every-status":
 					// one final status out of 100..599 per message, walking the range across cases
 					st := 100 + (i*37+k*13)%500
@@ -260,14 +280,34 @@ func TestC19(t *testing.T) {
 			done := make(chan error, 1)
 			go func() { done <- pusher.Go(ctx) }()
 			lo := time.Now()
-			ep.mu.Lock() // ids must be known before the first push arrives
-			resp := must(e.Pub.Publish(e.Ctx, req))
-			hi := time.Now()
-			for k, mid := range resp.MessageIds {
-				ms[k].id, ms[k].pub = mid, Iv2{lo, hi}
-				ep.msgs[mid] = ms[k]
+			publish := func(from, to int) {
+				part := &pubsubpb.PublishRequest{Topic: topic, Messages: req.Messages[from:to]}
+				plo := time.Now()
+				ep.mu.Lock() // ids must be known before the first push arrives
+				resp := must(e.Pub.Publish(e.Ctx, part))
+				phi := time.Now()
+				for k, mid := range resp.MessageIds {
+					ms[from+k].id, ms[from+k].pub = mid, Iv2{plo, phi}
+					ep.msgs[mid] = ms[from+k]
+				}
+				ep.mu.Unlock()
 			}
-			ep.mu.Unlock()
+			if grow > 0 {
+				publish(0, grow)
+				for w := 0; w < 600; w++ {
+					time.Sleep(100 * time.Millisecond)
+					rig.Quiesce()
+					ep.mu.Lock()
+					n := ep.successes
+					ep.mu.Unlock()
+					if n >= grow {
+						break
+					}
+				}
+				publish(grow, nm)
+			} else {
+				publish(0, nm)
+			}
 			// let virtual time pass until everything was answered with success, at most 10 minutes
 			start := time.Now()
 			for time.Since(start) < 10*time.Minute {
